@@ -160,6 +160,28 @@ func genC01Long(g *G) {
 		msg("evm", "semiFungible", xs+";"+xs+";"+b(addr)+";"+b([]byte{7, 7}), "n")
 		msg("evm", "semiFungible", one+";"+xs+";"+b(addr)+";"+b([]byte{7, 7}), "n")
 	}
+	// Bitcoin destination ids written with leading zeros — every value whose digits could be read in another base
+	for _, dd := range []string{"010", "0100", "08", "09", "017", "0255", "00010", "0377", "01", "000"} {
+		for _, dk := range []string{"evm", "btc"} {
+			relay("btc", dk, "1000", hx([]byte("0x"+strings.Repeat("cd", 20)+"_"+dd)))
+			relay("btc", dk, "1000", hx([]byte(strings.Repeat("AB", 20)+"_"+dd)))
+		}
+	}
+	// bytes after the last length-delimited field are not part of the deposit: recipient padded to a word, stray bytes
+	// (Substrate fungible, ERC721), for every destination
+	for _, rl := range []int{20, 32, 1, 33} {
+		r := g.Bytes(rl)
+		for _, tail := range [][]byte{make([]byte, (32-rl%32)%32), g.Bytes(1), g.Bytes(32), g.Bytes(33), g.Bytes(100)} {
+			if rl+len(tail) < 20 {
+				continue
+			}
+			for _, dk := range []string{"evm", "sub", "btc"} {
+				relay("sub", dk, hx(cat(amount, w32u(uint64(rl)), r, tail)), "0")
+			}
+			relay("erc721", "evm", hx(cat(amount, w32u(uint64(rl)), r, w32u(3), []byte{1, 2, 3}, tail)), "-")
+			relay("erc721", "sub", hx(cat(amount, w32u(uint64(rl)), r, w32u(0), tail)), "-")
+		}
+	}
 	// a converted amount of exactly zero replaces the calldata amount
 	for _, dk := range []string{"evm", "sub", "btc"} {
 		relay("erc20", dk, hx(cat(amount, w32u(20), addr)), hx(make([]byte, 32)))
